@@ -65,7 +65,7 @@ def generated_programs(rng, n, **kw):
 
 
 REGEX_ATOMS = ["a", "b", "c", ".", "\\d", "\\D", "\\s", "\\S", "[abc]", "[^ab]", "[a-c]", "[a-cx]", "(a)", "(?:ab)", "(?<n>b)", "(a|b)", "a|b", "^", "$", "\\1", "\\k<n>", "\\.", "x"]
-REGEX_QUANT = ["", "", "", "*", "+", "?", "{2}", "{1,}", "{1,2}", "*?", "+?", "??", "{1,2}?"]
+REGEX_QUANT = ["", "", "", "*", "+", "?", "{2}", "{1,}", "{1,2}", "*?", "+?", "??", "{1,2}?", "{2}?", "{1,1}?", "{2,}?"]
 
 
 def random_regex(rng, hostile=False):
